@@ -135,6 +135,14 @@ pub fn replay(case: &Value) -> Result<Verdict, String> {
     if case["kind"] == "fuzz-input" {
         return crate::fuzzrun::replay(case);
     }
+    if case["kind"] == "text" {
+        let text = case["text"].as_str().ok_or("text")?;
+        return Ok(match catch(|| parse(text)) {
+            Ok(Err(_)) => Verdict::Pass { nt: true, class: "rejected" },
+            Ok(Ok((_, t))) => Verdict::Fail(format!("{text:?} accepted as {:?}", from_ast(&t))),
+            Err(p) => Verdict::Fail(format!("panic: {p}")),
+        });
+    }
     let words = case["words"].as_array().ok_or("no words")?;
     let ws: Vec<W> = words
         .iter()
@@ -402,6 +410,23 @@ pub fn run(ctx: &Ctx) -> Report {
     }).unwrap().join().unwrap());
     total.merge(st);
     total.exhaustive_parts.push("parenthesis / negation nesting of every depth 1..=64; operator chains of 10..2500 operands for every operator spelling".into());
+    // operator words are recognised only when a blank or the end of the input follows: glued to the
+    // next word or to punctuation they form a word that is no sentence word at all -> rejected
+    let mut st = Stats::new();
+    for op in ["-a", "-and", "-o", "-or"] {
+        for tail in ["( -true )", "(-true)", "!-true", "! -true", ", -true", "-true", ")"] {
+            for head in ["-true", "-name x", "( -true )", "! -print"] {
+                let text = format!("{head} {op}{tail}");
+                let v = match catch(|| parse(&text)) {
+                    Err(p) => Verdict::Fail(format!("parse panicked on {text:?}: {p}")),
+                    Ok(Ok((_, t))) => Verdict::Fail(format!("{text:?}: the operator word is not followed by a blank, so this is not a sentence, but it was accepted as {:?}", from_ast(&t))),
+                    Ok(Err(_)) => Verdict::Pass { nt: true, class: "rejected: operator word glued to what follows" },
+                };
+                st.record(&v, stable_hash(&text), true, || json!({"kind": "text", "text": text}));
+            }
+        }
+    }
+    total.merge(st);
     // coverage-guided part: replay of the committed corpus (quick), libFuzzer campaign (thorough)
     crate::fuzzrun::replay_corpus("grammar", &mut total);
     if ctx.tier == Tier::Thorough && ctx.part.is_none() {
